@@ -469,7 +469,7 @@ func (pi *PodInfo) updatePodAdditionalFields(bindRequest *bindrequest_info.BindR
 
 	gpuFractionString := pi.Pod.Annotations[common_info.GPUFraction]
 	gpuFraction, GPUFractionErr := strconv.ParseFloat(gpuFractionString, 64)
-	if !(gpuFraction <= 0 || gpuFraction > 1 || GPUFractionErr != nil) {
+	if GPUFractionErr == nil && gpuFraction > 0 && gpuFraction <= 1 { // also false for NaN
 		pi.ResReq.GpuResourceRequirement = *resource_info.NewGpuResourceRequirementWithGpus(gpuFraction, 0)
 		pi.ResourceRequestType = RequestTypeFraction
 	}
